@@ -35,6 +35,32 @@ for sid in sorted(catch):
     out.append(f"| {sid} | {c['breaks']} | {c['what'].replace('|', chr(92)+'|')} | {det} | {c['first_run']} | {note} |")
 seed_block = "\n".join(out)
 
+# summary per seeding round
+rounds = {}
+for sid in catch:
+    mp = os.path.join(V, "seeded", sid, "meta.json")
+    rnd = 0
+    if os.path.exists(mp):
+        rnd = json.load(open(mp)).get("round", 0) or 0
+    r = rounds.setdefault(rnd, {"n": 0, "caught": 0, "missed": 0, "nd": 0})
+    r["n"] += 1
+    c = catch[sid]
+    if "not_detected" in c:
+        r["nd"] += 1
+    elif c["first_run"].startswith("caught"):
+        r["caught"] += 1
+    else:
+        r["missed"] += 1
+out = ["| round | seeded changes | caught by the property's check at the first run | missed at first (check strengthened, or caught by another property's check) | not detected on purpose |", "|---|---|---|---|---|"]
+tot = {"n": 0, "caught": 0, "missed": 0, "nd": 0}
+for rnd in sorted(rounds):
+    r = rounds[rnd]
+    for key in tot:
+        tot[key] += r[key]
+    out.append(f"| {rnd if rnd else 1} | {r['n']} | {r['caught']} | {r['missed']} | {r['nd']} |")
+out.append(f"| all | {tot['n']} | {tot['caught']} | {tot['missed']} | {tot['nd']} |")
+summary_block = "\n".join(out)
+
 p = os.path.join(V, "DESIGN.md")
 s = open(p).read()
 def put(s, tag, block):
@@ -45,5 +71,6 @@ def put(s, tag, block):
     return s[:i] + "\n" + block + "\n" + s[j:]
 s = put(s, "findings", findings_block)
 s = put(s, "seeds", seed_block)
+s = put(s, "seed-summary", summary_block)
 open(p, "w").write(s)
 print("DESIGN.md blocks regenerated:", len(kf["fixed"]), "fixed,", len(kf["findings"]), "known,", len(catch), "seeds")
